@@ -210,7 +210,8 @@ def run(chk, prog):
                    'with reset_call_stack = true the call stack is reset before the jump',
                    'choose_path_string(.., true, ..) can reach choose_path without reset_callstack', cps.loc(0))
         rcs = prog.fn('Story::reset_callstack')
-        okfe = rcs is not None and any(callee_short(t) == 'StoryState::force_end' for _, t in rcs.calls()) and any(
+        okfe = rcs is not None and any(callee_short(t) == 'StoryState::force_end' for g_ in prog.with_closures(rcs)
+                                       for _, t in g_.calls()) and any(
             callee_short(t) == 'CallStack::reset' for _, t in fe.calls())
         # ... on EVERY successful path of reset_callstack (a story resting at `-> DONE` inside a tunnel has a null pointer
         # and no choices, yet its tunnel frames are still on the call stack)
@@ -219,6 +220,15 @@ def run(chk, prog):
             g_r = cfg(rcs)
             fes = [bb for bb, t in rcs.calls() if callee_short(t) == 'StoryState::force_end']
             errs_ = [b for b, d_, s_ in _ee17(prog, rcs)]
+            # `refusal().map(|()| force_end())` returned as the result: the closure runs exactly when the result is Ok
+            if any(a in ('call:Result::map', 'via:Result::map', 'call:Result::and_then', 'via:Result::and_then')
+                   for a in tr.prov_local(rcs, 0)):
+                for bb, t in rcs.calls():
+                    if callee_short(t) in ('Result::map', 'Result::and_then') and any(
+                            callee_short(t2) == 'StoryState::force_end'
+                            for cl in (t['f'].get('closures') or []) if cl in prog.fns
+                            for g_ in prog.with_closures(prog.fns[cl]) for _, t2 in g_.calls()):
+                        fes.append(bb)
             w_ = g_r.path([0], lambda b: b in g_r.returns, avoid=fes + errs_)
             chk.decide(RC, chk.key(RC, 'reset_callstack-always-ends'), bool(fes) and w_ is None,
                        'every successful path of reset_callstack passes force_end',
